@@ -1,7 +1,7 @@
 (* Extract.v — extraction of the executable models to OCaml for the correspondence
    checks. ExtrOcamlBasic only: bool/option/list/prod/unit/sumbool map to OCaml's;
    nat, positive, N, Z stay inductive. No Extract Constant / Extract Inductive of our own. *)
-Require Import KV.Base KV.ConfigModel KV.EstimatorModel KV.GhostModel KV.HtableModel.
+Require Import KV.Base KV.ConfigModel KV.EstimatorModel KV.GhostModel KV.HtableModel KV.CacheModel.
 Require Import ExtrOcamlBasic.
 
 (* arithmetic the driver needs for decimal <-> Z conversion *)
@@ -13,6 +13,7 @@ Definition drv_divmod (a b : Z) : Z * Z := Z.div_eucl a b.
 Definition run_stream (sid : Z) (cfg : list Z) (ops : list (list Z)) : list (list Z) :=
   if sid =? 16 then run_out cfg_step tt ops
   else if sid =? 19 then run_out est_step (est_init cfg) ops
+  else if sid =? 1 then run_out cache_step (cache_init cfg) ops
   else if sid =? 12 then run_out ht_step (ht_init cfg) ops
   else if sid =? 191 then run_out ghost_step (ghost_init cfg) ops
   else [].
